@@ -3,13 +3,13 @@ generator pushes before an `io` instruction and the sequence a device
 operation pops, with loops kept as nested items."""
 import ast
 
-from .astutil import dotted, const, unparse, fstring_pattern
+from .astutil import dotted, const, unparse, fstring_pattern, canon
 
 TYPE_OF_CHAR = {'%': 'INTEGER', '&': 'LONG', '!': 'SINGLE', '#': 'DOUBLE',
                 '$': 'STRING'}
 
 
-def emit_sequence(body, stop_at_io=True):
+def emit_sequence(body, stop_at_io=True, fn=None):
     """Items: ('push', CellType name, operand text)
               ('expr', text of node expr, conv target or None)
               ('loop', iter text, [items])
@@ -20,13 +20,16 @@ def emit_sequence(body, stop_at_io=True):
     out = []
     pending_conv = {}
 
+    def txt(e):
+        return canon(e, fn) if fn is not None else unparse(e)
+
     def visit_stmt(st, out):
         if isinstance(st, ast.For):
             inner = []
             for s in st.body:
                 visit_stmt(s, inner)
             if inner:
-                out.append(('loop', unparse(st.iter), inner))
+                out.append(('loop', txt(st.iter), inner))
             return
         if isinstance(st, ast.If):
             a, b = [], []
@@ -53,7 +56,7 @@ def emit_sequence(body, stop_at_io=True):
                         elif pat.startswith('push') and len(pat) == 5 and \
                                 pat[4] in TYPE_OF_CHAR:
                             out.append(('push', TYPE_OF_CHAR[pat[4]],
-                                        unparse(a.elts[1])
+                                        txt(a.elts[1])
                                         if len(a.elts) > 1 else ''))
                         elif pat.startswith('pushm1') or \
                                 pat.startswith('push'):
@@ -63,27 +66,30 @@ def emit_sequence(body, stop_at_io=True):
                         else:
                             out.append(('op', pat))
             elif d.endswith('gen_code_for_node'):
-                out.append(('expr', unparse(n.args[0]), None))
+                out.append(('expr', txt(n.args[0]), None))
             elif d == 'gen_code_for_conv':
                 # applies to the preceding expr
                 tgt = unparse(n.args[0]).split('.')[-1]
                 for i in range(len(out) - 1, -1, -1):
                     if out[i][0] == 'expr' and \
-                            out[i][1] == unparse(n.args[1]):
+                            out[i][1] == txt(n.args[1]):
                         out[i] = ('expr', out[i][1], tgt)
                         break
             elif d == 'gen_lvalue_write':
-                out.append(('write', unparse(n.args[0])))
+                out.append(('write', txt(n.args[0])))
     for st in body:
         visit_stmt(st, out)
     return out
 
 
 def pop_sequence(body, pop_names=('self.cpu.pop', 'self._get_arg_from_stack',
-                                  'self.pop')):
+                                  'self.pop'), fn=None):
     """Items: ('pop', CellType name or None, assigned name)
               ('loop', iter text, [items])"""
     out = []
+
+    def txt(e):
+        return canon(e, fn) if fn is not None else unparse(e)
 
     def visit_stmt(st, out):
         if isinstance(st, (ast.FunctionDef,)):
@@ -93,8 +99,8 @@ def pop_sequence(body, pop_names=('self.cpu.pop', 'self._get_arg_from_stack',
             for s in st.body:
                 visit_stmt(s, inner)
             if inner:
-                it = unparse(st.iter) if isinstance(st, ast.For) \
-                    else unparse(st.test)
+                it = txt(st.iter) if isinstance(st, ast.For) \
+                    else txt(st.test)
                 out.append(('loop', it, inner))
             return
         if isinstance(st, ast.If):
@@ -106,19 +112,32 @@ def pop_sequence(body, pop_names=('self.cpu.pop', 'self._get_arg_from_stack',
                 t = None
                 if n.args:
                     t = (dotted(n.args[0]) or '').split('.')[-1]
-                tgt = ''
-                if isinstance(st, ast.Assign):
-                    tgt = unparse(st.targets[0])
-                out.append(('pop', t, tgt))
+                out.append(('pop', t, ''))
     for st in body:
         visit_stmt(st, out)
     return out
 
 
-def type_id_arms(fn_node, var):
+def int_dispatch_var(fn_node):
+    """Name most often compared with `== <int>` in if tests."""
+    from collections import Counter
+    c = Counter()
+    for n in ast.walk(fn_node):
+        if isinstance(n, ast.If) and isinstance(n.test, ast.Compare) and \
+                isinstance(n.test.left, ast.Name) and \
+                len(n.test.ops) == 1 and \
+                isinstance(n.test.ops[0], ast.Eq) and \
+                isinstance(const(n.test.comparators[0]), int) and \
+                not isinstance(const(n.test.comparators[0]), bool):
+            c[n.test.left.id] += 1
+    return c.most_common(1)[0][0] if c else None
+
+
+def type_id_arms(fn_node, var=None):
     """{int id: [CellType names pushed in that arm]} for `if var == k:`
-    ladders."""
+    ladders (var defaults to the integer dispatch variable)."""
     out = {}
+    var = int_dispatch_var(fn_node) if var is None else var
     for n in ast.walk(fn_node):
         if isinstance(n, ast.If) and isinstance(n.test, ast.Compare) and \
                 dotted(n.test.left) == var and len(n.test.ops) == 1 and \
